@@ -75,16 +75,31 @@ func row1D(c *core.Ctx, cs *core.Case, bc barcode.Barcode) ([]bool, bool) {
 	}
 	row := make([]bool, b.Dx())
 	for x := range row {
-		switch bc.At(x, 0) {
-		case color.Black:
+		switch bw(bc.At(x, 0)) {
+		case 1:
 			row[x] = true
-		case color.White:
+		case 0:
 		default:
 			c.Fail("C11", cs, "pixel (%d,0) is %v: neither black nor white", x, bc.At(x, 0))
 			return nil, false
 		}
 	}
 	return row, true
+}
+
+// bw classifies a pixel of a plain (black on white) barcode: 1 black, 0 white, -1 other.
+func bw(col color.Color) int {
+	if col == nil {
+		return -1
+	}
+	r, g, b, a := col.RGBA()
+	switch {
+	case a == 0xffff && r == 0 && g == 0 && b == 0:
+		return 1
+	case a == 0xffff && r == 0xffff && g == 0xffff && b == 0xffff:
+		return 0
+	}
+	return -1
 }
 
 func meta(c *core.Ctx, cs *core.Case, bc barcode.Barcode, kind string, dims byte, content string) {
